@@ -205,16 +205,23 @@ def case(ctx, i, rng):
                 continue
         before = snapshot(out)
         path = os.path.join(out, target)
+        spelling = rng.choice(["absolute", "absolute", "relative", "tilde", "file-uri"])
+        given_path = {"absolute": path, "relative": target, "tilde": "~/" + target, "file-uri": "file://" + path}[spelling]
+        old_home = os.environ.get("HOME")
+        os.environ["HOME"] = out
         os.chdir(out)
         try:
-            o, opens = do_save(p, cfg, path, multifile, overwrite, fail_open_at=detail if kind == "oserror-at-write-open" else None)
+            o, opens = do_save(p, cfg, given_path, multifile, overwrite, fail_open_at=detail if kind == "oserror-at-write-open" else None)
         finally:
             os.chdir(cwd)
+            if old_home is not None:
+                os.environ["HOME"] = old_home
+        ctx.count(f"st.target_spelling.{spelling}")
         after = snapshot(out)
         ctx.evaluation(("c18", kind, str(detail)[:40], tuple(sorted(feats)), multifile, overwrite, tuple(sorted(existing))))
         ctx.count(f"mon.saves.{kind}")
         ctx.count(f"ev.save.{'ok' if o.accepted else o.exc_type}")
-        w = dict(base_w, fault=kind, detail=short(detail), outcome=o.brief(), write_opens=opens, before=sorted(before), after=sorted(after))
+        w = dict(base_w, target_given_as=given_path.replace(out, "<out>"), fault=kind, detail=short(detail), outcome=o.brief(), write_opens=opens, before=sorted(before), after=sorted(after))
         changed = sorted(k for k in before if k in after and after[k] != before[k])
         removed = sorted(k for k in before if k not in after)
         created = sorted(k for k in after if k not in before)
